@@ -32,7 +32,7 @@ CHECKS = {
          "Every non-empty subset of the module paths {a, n/c, n/d/e, n}; one module at a time ranges over every subset of item kinds and every sequence of up to 2 backend blocks (rust prologue/epilogue/both, cpp); plus a collision menu that must be rejected. pyxis::build runs on real directories; the output listing must be exactly one .rs per module, each file's struct/enum/accessor multiset must equal the declared one plus generated vftable structs, prologue items first and epilogue items last in source order, no foreign backend text.",
          "File-system enumeration order is whatever glob yields in this sandbox.", "DESIGN.md §6 C14"),
  "C16": ("bounded-exhaustive enumeration of calling-convention declarations (E1); ABI strings read with syn from the unmodified output, acceptance by rustc on i686-pc-windows-msvc",
-         "Every choice of convention (absent, the seven names, an invalid name) for a virtual function and independently for an address-bound impl function, every receiver form, inheritance depth 1..3 with the slot re-declared at each level, with and without placeholder slots: the ABI string of every vftable slot at every level, of placeholder slots, and of the wrapper's function-pointer type must be the declared name or the receiver-based default; invalid names must be rejected; every accepted output is compiled unmodified for i686-pc-windows-msvc.",
+         "Every choice of convention (absent, the seven names, an invalid name) for a virtual function and independently for an address-bound impl function, every receiver form, inheritance depth 1..3 with the slot re-declared at each level, with and without placeholder slots: the ABI string of every vftable slot at every level, of placeholder slots, and of the wrapper's function-pointer type must be the declared name or the receiver-based default; invalid names must be rejected; every accepted output is compiled unmodified for i686-pc-windows-msvc. Thorough: the functions added by derived levels carry an independent convention from the same nine and the impl function sits on the most derived type (55 k cases).",
          "syn's reading of `extern \"..\"` strings; rustc nightly's ABI table for the i686 msvc target.", "DESIGN.md §6 C16"),
  "C17": ("bounded-exhaustive enumeration of visibility x marker x doc-comment assignments (E1); syn inspection of every emitted item",
          "Every pub/private assignment over seven item positions x every subset of the four markers on a plain type (and marker subsets on a vftable type and an enum), and every assignment of {none, one line, multi-line with empty lines} docs to seven positions, with a derived type inheriting documented members: visibility of every emitted type/field/method/accessor/slot, privacy of generated fields and placeholder slots, exact derive sets, packed-without-align repr, and #[doc] attributes line for line on the counterparts and on no other item.",
@@ -65,7 +65,7 @@ CHECKS = {
          "The accepted cases of the layout space, a dedicated marker space (every subset of copyable/cloneable/defaultable/packed x eleven field kinds x same/cross module), and the carry-over, convention, scoping, enum, hierarchy and module-set spaces are assembled into crates (modules mirroring the input tree, extern types supplied) and type-checked including bodies: on the host with calling conventions normalised to C and, unmodified, for i686-pc-windows-msvc. Zero errors required; deny-by-default lints count.",
          "Quick tier strides through the larger source spaces. Three defect classes are listed as known findings (packed type embedding a struct, duplicate enum values, user type named like a built-in).", "DESIGN.md §6 C13"),
  "C15": ("bounded-exhaustive enumeration of singleton / extern-value declarations (E1); accessors executed on the host with data pages mapped at the declared absolute addresses (X), literals read with syn (S)",
-         "#[singleton(A)] on a struct and on an enum and `extern v: T` with #[address(A)] for seven types, A over five mappable and four unmappable addresses in three spellings, public and private: struct get() is None for null and otherwise exactly the planted object (one indirection), enum get() returns the stored value, get_v() refers to address A; accessor type, visibility, address literal and indirection level are checked in the text at both widths; an extern value without address must be rejected.",
+         "#[singleton(A)] on a struct and on an enum and `extern v: T` with #[address(A)] for seven types, A over five mappable and four unmappable addresses in three spellings, public and private: struct get() is None for null and otherwise exactly the planted object (one indirection), enum get() returns the stored value, get_v() refers to address A; accessor type, visibility, address literal and indirection level are checked in the text at both widths; an extern value without address must be rejected. Thorough: every ordered pair of accessor declarations in one module (10 x 10 kinds, four address relations incl. equal and adjacent, three visibility combinations, both declaration orders), both accessors judged in the text and executed in one process.",
          "Linux mmap(MAP_FIXED_NOREPLACE) semantics; execution on the 64-bit host.", "DESIGN.md §6 C15"),
 }
 
